@@ -317,8 +317,11 @@ PlantUnknownType ==
         /\ Edit(<<"plant:TypeDeclared", unit.pous[i].n, cls, ini[1]>>, AddVarTo(unit, i, V("nt", cls, "-", "MISSING", ini)))
   \/ Edit(<<"plant:TypeDeclared", "PT", "element">>, [unit EXCEPT !.types[3].elems = Append(@, [n |-> "w", ty |-> "MISSING", init |-> NoInit])])
   \/ Edit(<<"plant:TypeDeclared", "LEVEL2", "alias">>, [unit EXCEPT !.types[2].base = "MISSING"])
-PlantStdlib == \E i \in PouIdx(unit), ty \in UnsupportedStd : "ns" \notin VarNames(unit.pous[i]) /\
-                 Edit(<<"plant:StdlibSupported", unit.pous[i].n, ty>>, AddVarTo(unit, i, V("ns", "VAR", "-", ty, NoInit)))
+\* a variable of a standard function block type the compiler does not implement - declared only, or also invoked
+PlantStdlib == \E i \in PouIdx(unit), ty \in UnsupportedStd, invoked \in BOOLEAN : "ns" \notin VarNames(unit.pous[i]) /\
+                 LET u2 == AddVarTo(unit, i, V("ns", "VAR", "-", ty, NoInit))
+                 IN  Edit(<<"plant:StdlibSupported", unit.pous[i].n, ty, IF invoked THEN "invoked" ELSE "declared">>,
+                          IF invoked THEN AddStmtTo(u2, i, C(NoWrap, "ns", <<>>, <<>>, <<>>)) ELSE u2)
 \* an invocation of something that is not an instance of this POU: a name declared nowhere ("ghost"), or - scoping -
 \* the name of an instance that another POU declares (the previous / next one: a leak between sibling declarations)
 ForeignInstances(i) == UNION {PickOne({v.n : v \in {w \in VarsOf(unit.pous[k]) : w.ty \in FBNames(unit)}} \ VarNames(unit.pous[i])) :
@@ -387,7 +390,9 @@ NPlants == Cardinality({i \in 1..Len(edits) : ~IsGrow(edits[i])})
 PlantSound == /\ (NPlants = 1 => \A l \in PlantedRules : RuleOfEdit(l) \in Violated(unit))
               /\ (NPlants >= 1 => Violated(unit) # {})
 \* and nothing else is violated by a single plant except rules that necessarily follow
-Consequences(r) == CASE r = "TypeDeclared" -> {"EnumValueDeclared"} [] r = "EnumValuesUnique" -> {} [] OTHER -> {}
+Consequences(r) == CASE r = "TypeDeclared" -> {"EnumValueDeclared"} [] r = "EnumValuesUnique" -> {}
+                     [] r = "StdlibSupported" -> {"FBInstanceDeclared"}     \* an invoked variable of such a type is not an instance of a declared block
+                     [] OTHER -> {}
 SingleFaultIsSingle == (Len(edits) >= 1 /\ Cardinality(PlantedRules) = 1 /\ Cardinality({i \in 1..Len(edits) : ~IsGrow(edits[i])}) = 1) =>
                           \A r \in Violated(unit) : r = RuleOfEdit(CHOOSE l \in PlantedRules : TRUE) \/ r \in Consequences(RuleOfEdit(CHOOSE l \in PlantedRules : TRUE))
 
